@@ -748,6 +748,62 @@ def run_unusable_between(params, known):
     return dict(name=params['name'], evaluations=count, nontrivial_keys=sorted(keys), violations=violations, known=[], samples=[])
 
 
+def run_listen_changes(params, known):
+    """The receiving agent listens on a second port as well; while a three-segment transfer arrives on the first one (all six
+    orders) the user stops - or starts and stops again - the listening on the OTHER port after k datagrams, for every k.
+    The transfer is none of that port's business: the bundle is queued once, complete."""
+    violations = []
+    kinds = set()
+    keys = set()
+    count = 0
+
+    def viol(kind, detail, case):
+        if kind in kinds:
+            return
+        kinds.add(kind)
+        v = Violation(PROP, 'udp-reassembly', kind, dict(), '%r: %s' % (case, detail)).as_dict()
+        v['case'] = case
+        violations.append(v)
+    data = bytes(range(0x41, 0x4a))
+    segs = [enc_segment(5, 9, 0, data[0:3]), enc_segment(5, 9, 3, data[3:6]), enc_segment(5, 9, 6, data[6:9])]
+    for (order, k, op) in itertools.product(itertools.permutations(range(3)), range(4), ('stop-the-other-port', 'start-another-port', 'restart-the-other-port')):
+        count += 1
+        case = dict(order=list(order), after_datagrams=k, user=op)
+        world = UdpWorld(dict(agents=('R',)))
+        proc = world.procs['R']
+        res0 = world.bus_call(proc, AGENT_PATH, 'listen', R_ADDR[0], 4557, {}, iface=IFACE)
+        world.quiesce()
+        for (n, i) in enumerate(list(order) + [None]):
+            if n == k:
+                if op in ('stop-the-other-port', 'restart-the-other-port'):
+                    world.bus_call(proc, AGENT_PATH, 'listen_stop', R_ADDR[0], 4557, iface=IFACE)
+                if op == 'restart-the-other-port':
+                    world.bus_call(proc, AGENT_PATH, 'listen', R_ADDR[0], 4557, {}, iface=IFACE)
+                if op == 'start-another-port':
+                    world.bus_call(proc, AGENT_PATH, 'listen', R_ADDR[0], 4558, {}, iface=IFACE)
+                world.quiesce()
+            if i is None:
+                break
+            world.activate(None)
+            world.net.inject(R_ADDR, S_ADDR, segs[i])
+            world.quiesce()
+        keys.add('%r/%d/%s' % (order, k, op))
+        if res0[0] != 'ok':
+            viol('listen-call-failed', repr(res0), case)
+            continue
+        if world.escaped:
+            viol('exception-escaped-callback', '%s: %s' % (world.escaped[-1][1], world.escaped[-1][3]), case)
+            continue
+        fins = [sg for sg in world.signals['R'] if sg[0] == 'recv_bundle_finished']
+        got = []
+        for sg in fins:
+            res = world.pop('R', sg[1])
+            got.append(bytes(res[1]) if res[0] == 'ok' else None)
+        if got != [data]:
+            viol('each-segment-once-but-not-exactly-one-copy', 'queued %r' % (got,), case)
+    return dict(name=params['name'], evaluations=count, nontrivial_keys=sorted(keys), violations=violations, known=[], samples=[])
+
+
 def run_failed_request_then_good(params, known):
     """A send request that cannot be carried out (the peer name does not resolve, the local address
     cannot be used) among ordinary ones - queued before the loop runs, or one after the other: every
@@ -1136,6 +1192,7 @@ def scenarios(tier):
     out.append(dict(name='pop-histories', kind='enum', runner='run_pop_histories', params=dict(name='pop-histories'), weight=20))
     out.append(dict(name='paced-control', kind='enum', runner='run_paced_control', params=dict(name='paced-control'), weight=30))
     out.append(dict(name='send-fault', kind='enum', runner='run_send_fault', params=dict(name='send-fault'), weight=10))
+    out.append(dict(name='listen-changes', kind='enum', runner='run_listen_changes', params=dict(name='listen-changes'), weight=10))
     depth = 6 if tier == 'thorough' else 5
     t1 = [0, 1, 2, 7]
     for first in t1:
